@@ -60,10 +60,10 @@ theorem raise_while_blocked_stays_pending (st : St) (s : Int) (hok : st.isOk = t
 /-- An interrupted wait: `errno` is EINTR, nothing stays pending in the kernel, and every signal that was
     pending — raised before the iteration, from a callback of an earlier one, or inside the wait — has
     been recorded by the loop's handler. -/
-theorem wait_interrupted_records_signals (st : St) (t : Option Int) (h : (ppoll st t).2 = none) :
+theorem wait_interrupted_records_signals (st : St) (t : Option Int) (ho : st.observer = .self) (h : (ppoll st t).2 = none) :
     (ppoll st t).1.errno = EINTR ∧ (ppoll st t).1.kpending = [] ∧
     ∀ s ∈ (pollRaise (pollScan st)).kpending, s ∈ (ppoll st t).1.pendingSig :=
-  ppoll_eintr st t h
+  ppoll_eintr st t ho h
 
 example : (ppoll (runOps .shipped [.act (.signal 0 23 0), .act (.raise 23)]) (some 0)).2 = none := by decide +kernel
 
@@ -187,7 +187,7 @@ theorem dispatch_reaches_watchers (fuel : Nat) (st : St) (k : KInv st) (hok : (d
     callbacks have run and is not cancelled before the iteration ends: its FIRE entry is in the log of this
     iteration, whatever timers, deferred callbacks and the other signal callbacks did (errno included). -/
 theorem signal_reaches_watchers_end_to_end (fuel : Nat) (st : St) (nohang : Bool) (k : KInv st) (hs : st.cfg.errnoSaved = true)
-    (hok0 : st.isOk = true) (hok1 : (nextTimerMsec st).1.isOk = true)
+    (ho : st.observer = .self) (hok0 : st.isOk = true) (hok1 : (nextTimerMsec st).1.isOk = true)
     (hok2 : (ppoll (nextTimerMsec st).1 (tickTimeout nohang (nextTimerMsec st).2)).1.isOk = true)
     (hint : (ppoll (nextTimerMsec st).1 (tickTimeout nohang (nextTimerMsec st).2)).2 = none)
     (hok3 : (invokeTimers fuel (ppoll (nextTimerMsec st).1 (tickTimeout nohang (nextTimerMsec st).2)).1).isOk = true)
@@ -199,7 +199,7 @@ theorem signal_reaches_watchers_end_to_end (fuel : Nat) (st : St) (nohang : Bool
         ((invokeTimers fuel (ppoll (nextTimerMsec st).1 (tickTimeout nohang (nextTimerMsec st).2)).1).getW b).slot ≥ 0 →
         Ev.cb ((invokeTimers fuel (ppoll (nextTimerMsec st).1 (tickTimeout nohang (nextTimerMsec st).2)).1).getW b).slot EV_FIRE .none
           ∈ (tick fuel st nohang).log :=
-  tick_signal_reaches_logged fuel st nohang k hs hok0 hok1 hok2 hint hok3 hok
+  tick_signal_reaches_logged fuel st nohang k hs ho hok0 hok1 hok2 hint hok3 hok
 
 example : Ev.cb 1 EV_FIRE .none ∈ (runOps .repaired [.beh ⟨0, 0, [.errno 11, .stop]⟩, .act (.signal 1 23 0), .act (.signal 2 10 0),
     .act (.timer 0 0 0), .act (.raise 23), .act (.raise 10), .tick]).log := by decide +kernel
